@@ -435,12 +435,32 @@ func c11Conc(c *Ctx) {
 		h := http.HandlerFunc(func(w http.ResponseWriter, req *http.Request) { w.Header().Set("X-Routed", urlKey(req.URL)) })
 		sticky := roundrobin.NewStickySession("aff").SetCookieValue(codec.v)
 		t := newC02Target(kind, h, "never", r, sticky)
+		// two extra servers at the front of the list are removed and re-added all the time by an administration
+		// goroutine (weight 0: they never receive traffic); the servers the sessions stick to stay members throughout
+		extras := []*url.URL{mustURL("http://churn-a.test/"), mustURL("http://churn-b.test/")}
+		for _, e := range extras {
+			_ = t.upsert(e, roundrobin.Weight(1))
+			_ = t.upsert(e, roundrobin.Weight(0))
+		}
 		n := 2 + r.IntN(4)
 		for k := 0; k < n; k++ {
 			if err := t.upsert(c11GenURL(r, k), roundrobin.Weight(1+r.IntN(2))); err != nil {
 				return
 			}
 		}
+		var adminStop atomic.Bool
+		var adminWG sync.WaitGroup
+		adminWG.Add(1)
+		go func() {
+			defer adminWG.Done()
+			for k := 0; !adminStop.Load(); k++ {
+				e := extras[k%2]
+				_ = t.remove(e)
+				_ = t.upsert(e, roundrobin.Weight(1))
+				_ = t.upsert(e, roundrobin.Weight(0))
+				time.Sleep(50 * time.Microsecond)
+			}
+		}()
 		const G = 8
 		per := 40 + r.IntN(c.N(100, 300))
 		var wg sync.WaitGroup
@@ -463,6 +483,9 @@ func c11Conc(c *Ctx) {
 							cookie = ck
 						}
 					}
+					if strings.Contains(first, "|churn-") {
+						continue // served by a server that is being removed and re-added: not guaranteed to stay a member
+					}
 					if cookie == nil || first == "" {
 						bad.Add(1)
 						firstBad.CompareAndSwap(nil, sfmt("cookie-less request: routed=%q cookie=%v", first, cookie != nil))
@@ -482,6 +505,8 @@ func c11Conc(c *Ctx) {
 		}
 		close(start)
 		wg.Wait()
+		adminStop.Store(true)
+		adminWG.Wait()
 		c.Eval()
 		c.Count("conc_sessions", sessions.Load())
 		if bad.Load() > 0 {
